@@ -240,6 +240,7 @@ type searchCase struct {
 	Viol       string            `json:"violation,omitempty"`
 	Stderr     string            `json:"stderr_tail,omitempty"`
 	ExpectFail bool              `json:"expect_error"`
+	AnyExit    bool              `json:"any_exit_code"` // the query may succeed or fail cleanly; only races, crashes and hangs count
 }
 
 // buildRace builds the CLI of the tree under check with the race detector.  `go build` decides staleness
@@ -337,43 +338,65 @@ func raceSearch(repo, work string, f lib.Flags, joinCap int) ([]searchCase, stri
 	writeJSONL(filepath.Join(dir, "big.json"), 9000, func(i int) string {
 		return fmt.Sprintf("{\"id\": %d, \"k\": %d, \"s\": \"name%d\"}", i, i%keys, i%7)
 	})
+	// pattern columns: every row carries its own LIKE pattern and its own regular expression, so the operators'
+	// process-wide pattern caches see far more distinct patterns than any bound a cache implementation may have
+	np := 8*1024 + r.Intn(600) // several times any plausible cache bound, so a bounded cache is reset/evicted many times during the query
+	files["pa.json"] = fmt.Sprintf("%d lines {id,s=name<id>,lp=name<id>%%,rp=^name<id>$,ip=^NAME<id>$}: %d distinct patterns per column", np, np)
+	files["pb.json"] = fmt.Sprintf("%d lines {id,t=val<id>,lp=val<id>_,rp=^val<id>.$,ip=^VAL<id>.$}", np)
+	writeJSONL(filepath.Join(dir, "pa.json"), np, func(i int) string {
+		return fmt.Sprintf("{\"id\": %d, \"s\": \"name%d\", \"lp\": \"name%d%%\", \"rp\": \"^name%d$\", \"ip\": \"^NAME%d$\"}", i, i, i, i, i)
+	})
+	writeJSONL(filepath.Join(dir, "pb.json"), np, func(i int) string {
+		return fmt.Sprintf("{\"id\": %d, \"t\": \"val%dx\", \"lp\": \"val%d_\", \"rp\": \"^val%d.$\", \"ip\": \"^VAL%d.$\"}", i, i, i, i, i)
+	})
 	lim := 1 + r.Intn(40)
 	type q struct {
 		kind, sql, stdin string
 		fail             bool
+		anyExit          bool
 	}
 	qs := []q{
-		{"parallel_json", "SELECT COUNT(*), SUM(id) FROM a.json", "", false},
-		{"parallel_json_big", "SELECT COUNT(*) FROM big.json WHERE s LIKE 'name%'", "", false},
-		{"join_json", "SELECT COUNT(*) FROM a.json a JOIN b.json b ON a.k = b.k", "", false},
-		{"join_like_regex", "SELECT COUNT(*) FROM a.json a JOIN b.json b ON a.k = b.k WHERE a.s LIKE 'name_' AND b.t ~ 'val[0-9]+' AND a.s ~* 'NAME[0-6]'", "", false},
-		{"join_like_both", "SELECT a.id, b.id FROM (SELECT * FROM a.json x WHERE x.s LIKE '%me" + strconv.Itoa(r.Intn(7)) + "') a JOIN (SELECT * FROM b.json y WHERE y.t LIKE 'val%' AND y.t ~ '^val') b ON a.k = b.k", "", false},
-		{"left_join", "SELECT COUNT(*) FROM a.json a LEFT JOIN b.json b ON a.id = b.id WHERE a.s LIKE 'na%'", "", false},
-		{"limit", fmt.Sprintf("SELECT id FROM big.json LIMIT %d", lim), "", false},
-		{"join_limit", fmt.Sprintf("SELECT a.id, b.id FROM big.json a JOIN b.json b ON a.k = b.k WHERE a.s LIKE 'name%%' LIMIT %d", lim), "", false},
-		{"injected_error", "SELECT COUNT(*) FROM bad.json", "", true},
-		{"join_injected_error", "SELECT COUNT(*) FROM bad.json a JOIN b.json b ON a.k = b.k WHERE b.t ~ 'val'", "", true},
-		{"stdin", "SELECT COUNT(*) FROM stdin.json", "a.json", false},
+		{"parallel_json", "SELECT COUNT(*), SUM(id) FROM a.json", "", false, false},
+		{"parallel_json_big", "SELECT COUNT(*) FROM big.json WHERE s LIKE 'name%'", "", false, false},
+		{"join_json", "SELECT COUNT(*) FROM a.json a JOIN b.json b ON a.k = b.k", "", false, false},
+		{"join_like_regex", "SELECT COUNT(*) FROM a.json a JOIN b.json b ON a.k = b.k WHERE a.s LIKE 'name_' AND b.t ~ 'val[0-9]+' AND a.s ~* 'NAME[0-6]'", "", false, false},
+		{"join_like_both", "SELECT a.id, b.id FROM (SELECT * FROM a.json x WHERE x.s LIKE '%me" + strconv.Itoa(r.Intn(7)) + "') a JOIN (SELECT * FROM b.json y WHERE y.t LIKE 'val%' AND y.t ~ '^val') b ON a.k = b.k", "", false, false},
+		{"left_join", "SELECT COUNT(*) FROM a.json a LEFT JOIN b.json b ON a.id = b.id WHERE a.s LIKE 'na%'", "", false, false},
+		{"limit", fmt.Sprintf("SELECT id FROM big.json LIMIT %d", lim), "", false, false},
+		{"join_limit", fmt.Sprintf("SELECT a.id, b.id FROM big.json a JOIN b.json b ON a.k = b.k WHERE a.s LIKE 'name%%' LIMIT %d", lim), "", false, false},
+		{"injected_error", "SELECT COUNT(*) FROM bad.json", "", true, false},
+		{"join_injected_error", "SELECT COUNT(*) FROM bad.json a JOIN b.json b ON a.k = b.k WHERE b.t ~ 'val'", "", true, false},
+		{"stdin", "SELECT COUNT(*) FROM stdin.json", "a.json", false, false},
 		// early stop while far more input is pending on stdin than the scanner has buffered
-		{"stdin_limit", fmt.Sprintf("SELECT id FROM stdin.json LIMIT %d", 1+r.Intn(4)), "hugel.json", false},
-		{"stdin_limit", fmt.Sprintf("SELECT id, s FROM stdin.json WHERE s LIKE 'name%%' LIMIT %d", lim), "hugel.json", false},
-		{"stdin_error", "SELECT COUNT(*) FROM stdin.json", "hugebad.json", true},
-		{"stdin_join", "SELECT COUNT(*) FROM stdin.json a JOIN b.json b ON a.k = b.k WHERE a.s ~* 'NaMe'", "a.json", false},
+		{"stdin_limit", fmt.Sprintf("SELECT id FROM stdin.json LIMIT %d", 1+r.Intn(4)), "hugel.json", false, false},
+		{"stdin_limit", fmt.Sprintf("SELECT id, s FROM stdin.json WHERE s LIKE 'name%%' LIMIT %d", lim), "hugel.json", false, false},
+		{"stdin_error", "SELECT COUNT(*) FROM stdin.json", "hugebad.json", true, false},
+		{"stdin_join", "SELECT COUNT(*) FROM stdin.json a JOIN b.json b ON a.k = b.k WHERE a.s ~* 'NaMe'", "a.json", false, false},
 		// early stop of a join whose inputs have far more rows left than the join's channels hold
-		{"join_limit_over_capacity", fmt.Sprintf("SELECT l.id, r.id FROM hugel.json l JOIN huger.json r ON l.id = r.id LIMIT %d", 1+r.Intn(5)), "", false},
-		{"left_join_limit_over_capacity", fmt.Sprintf("SELECT l.id, r.id FROM hugel.json l LEFT JOIN huger.json r ON l.id = r.id LIMIT %d", 1+r.Intn(5)), "", false},
-		{"join_error_over_capacity", "SELECT COUNT(*) FROM hugebad.json l JOIN huger.json r ON l.id = r.id", "", true},
-		{"join_like_limit_over_capacity", fmt.Sprintf("SELECT l.id FROM hugel.json l JOIN huger.json r ON l.id = r.id WHERE l.s LIKE 'name%%' AND r.t ~ 'val' LIMIT %d", 1+r.Intn(5)), "", false},
-		{"self_join", "SELECT COUNT(*) FROM a.json a JOIN a.json b ON a.id = b.id WHERE a.s LIKE b.s", "", false},
+		{"join_limit_over_capacity", fmt.Sprintf("SELECT l.id, r.id FROM hugel.json l JOIN huger.json r ON l.id = r.id LIMIT %d", 1+r.Intn(5)), "", false, false},
+		{"left_join_limit_over_capacity", fmt.Sprintf("SELECT l.id, r.id FROM hugel.json l LEFT JOIN huger.json r ON l.id = r.id LIMIT %d", 1+r.Intn(5)), "", false, false},
+		{"join_error_over_capacity", "SELECT COUNT(*) FROM hugebad.json l JOIN huger.json r ON l.id = r.id", "", true, false},
+		{"join_like_limit_over_capacity", fmt.Sprintf("SELECT l.id FROM hugel.json l JOIN huger.json r ON l.id = r.id WHERE l.s LIKE 'name%%' AND r.t ~ 'val' LIMIT %d", 1+r.Intn(5)), "", false, false},
+		// every process-wide cache of functions.go driven from both inputs of a join (two goroutines) with > 2000 distinct patterns
+		{"join_like_pattern_column", "SELECT COUNT(*) FROM (SELECT * FROM pa.json x WHERE x.s LIKE x.lp) a JOIN (SELECT * FROM pb.json y WHERE y.t LIKE y.lp) b ON a.id = b.id", "", false, false},
+		{"join_regex_pattern_column", "SELECT COUNT(*) FROM (SELECT * FROM pa.json x WHERE x.s ~ x.rp) a JOIN (SELECT * FROM pb.json y WHERE y.t ~ y.rp) b ON a.id = b.id", "", false, false},
+		{"join_iregex_pattern_column", "SELECT COUNT(*) FROM (SELECT * FROM pa.json x WHERE x.s ~* x.ip) a JOIN (SELECT * FROM pb.json y WHERE y.t ~* y.ip) b ON a.id = b.id", "", false, false},
+		// the stdin globals of execution/files (previewedBuffer, its mutex, the two counters) reached from two goroutines:
+		// stdin opened by two sources of one query (the second open is refused; the query may fail, cleanly)
+		{"stdin_self_join", "SELECT COUNT(*) FROM stdin.json a JOIN stdin.json b ON a.id = b.id", "a.json", false, true},
+		{"stdin_self_left_join_limit", "SELECT a.id FROM stdin.json a LEFT JOIN stdin.json b ON a.id = b.id LIMIT 3", "hugel.json", false, true},
+		{"stdin_two_sources_subquery", "SELECT COUNT(*) FROM (SELECT * FROM stdin.json x WHERE x.s LIKE 'name%') a JOIN (SELECT * FROM stdin.json y WHERE y.s LIKE 'name_') b ON a.id = b.id", "a.json", false, true},
+		{"self_join", "SELECT COUNT(*) FROM a.json a JOIN a.json b ON a.id = b.id WHERE a.s LIKE b.s", "", false, false},
 	}
 	reps := 1
 	if f.Tier == "thorough" {
 		reps = 4
+		qs = append(qs, q{"left_join_all_pattern_columns", "SELECT COUNT(*) FROM (SELECT * FROM pa.json x WHERE x.s ~ x.rp AND x.s ~* x.ip AND x.s LIKE x.lp) a LEFT JOIN (SELECT * FROM pb.json y WHERE y.t ~ y.rp AND y.t ~* y.ip AND y.t LIKE y.lp) b ON a.id = b.id", "", false, false})
 	}
 	var cases []searchCase
 	for rep := 0; rep < reps; rep++ {
 		for i, x := range qs {
-			cases = append(cases, searchCase{Kind: x.kind, Query: x.sql, Stdin: x.stdin, Files: files, ExpectFail: x.fail,
+			cases = append(cases, searchCase{Kind: x.kind, Query: x.sql, Stdin: x.stdin, Files: files, ExpectFail: x.fail, AnyExit: x.anyExit,
 				Gomaxprocs: gomaxprocs[(i+rep+int(f.Seed))%len(gomaxprocs)]})
 		}
 	}
@@ -393,11 +416,33 @@ func raceSearch(repo, work string, f lib.Flags, joinCap int) ([]searchCase, stri
 }
 
 const queryTimeout = 60 * time.Second
+const hardTimeout = 6 * time.Minute
+
+// procCPU returns the CPU seconds (user+system) a process has used so far, or -1.
+func procCPU(pid int) float64 {
+	b, err := os.ReadFile(fmt.Sprintf("/proc/%d/stat", pid))
+	if err != nil {
+		return -1
+	}
+	s := string(b)
+	i := strings.LastIndex(s, ")") // the command name may contain spaces
+	if i < 0 {
+		return -1
+	}
+	f := strings.Fields(s[i+1:])
+	if len(f) < 13 {
+		return -1
+	}
+	ut, e1 := strconv.ParseFloat(f[11], 64) // fields 14 and 15 of the stat line
+	st, e2 := strconv.ParseFloat(f[12], 64)
+	if e1 != nil || e2 != nil {
+		return -1
+	}
+	return (ut + st) / 100
+}
 
 func runQuery(bin, dir, home string, c *searchCase) {
-	ctx, cancel := context.WithTimeout(context.Background(), queryTimeout)
-	defer cancel()
-	cmd := exec.CommandContext(ctx, bin, c.Query, "-o", "json")
+	cmd := exec.Command(bin, c.Query, "-o", "json")
 	cmd.Dir = dir
 	cmd.Env = append(os.Environ(), "OCTOSQL_NO_TELEMETRY=1", "HOME="+home, "GOMAXPROCS="+strconv.Itoa(c.Gomaxprocs),
 		"GORACE=halt_on_error=0 exitcode=66")
@@ -411,19 +456,56 @@ func runQuery(bin, dir, home string, c *searchCase) {
 	var eb, ob bytes.Buffer
 	cmd.Stderr, cmd.Stdout = &eb, &ob
 	t0 := time.Now()
-	err := cmd.Run()
+	hung := ""
+	err := cmd.Start()
+	if err == nil {
+		// Wall-clock oracle that survives a loaded machine: after queryTimeout the query is declared hung only if
+		// it has also stopped consuming CPU (a deadlocked Go process is idle); a query that is still computing gets
+		// more time, up to hardTimeout (which also bounds a livelock).
+		done := make(chan error, 1)
+		go func() { done <- cmd.Wait() }()
+		lastCPU, lastAt := procCPU(cmd.Process.Pid), time.Now()
+	wait:
+		for {
+			select {
+			case err = <-done:
+				break wait
+			case <-time.After(2 * time.Second):
+			}
+			wall := time.Since(t0)
+			if time.Since(lastAt) >= 10*time.Second {
+				cur := procCPU(cmd.Process.Pid)
+				idle := cur >= 0 && lastCPU >= 0 && cur-lastCPU < 0.3
+				lastCPU, lastAt = cur, time.Now()
+				if wall > queryTimeout && (idle || cur < 0) {
+					hung = fmt.Sprintf("NON-TERMINATION: the query did not finish within %v and used no CPU in its last 10 s (GOMAXPROCS=%d)", wall.Round(time.Second), c.Gomaxprocs)
+				}
+			}
+			if hung == "" && wall > hardTimeout {
+				hung = fmt.Sprintf("NON-TERMINATION: the query did not finish within %v (GOMAXPROCS=%d)", hardTimeout, c.Gomaxprocs)
+			}
+			if hung != "" {
+				cmd.Process.Kill()
+				err = <-done
+				break wait
+			}
+		}
+	}
 	c.WallMs = time.Since(t0).Milliseconds()
-	c.Exit = cmd.ProcessState.ExitCode()
+	if cmd.ProcessState != nil {
+		c.Exit = cmd.ProcessState.ExitCode()
+	}
 	es := eb.String()
 	switch {
-	case ctx.Err() == context.DeadlineExceeded:
-		c.Viol = fmt.Sprintf("NON-TERMINATION: the query did not finish within %v (GOMAXPROCS=%d)", queryTimeout, c.Gomaxprocs)
+	case hung != "":
+		c.Viol = hung
 	case strings.Contains(es, "WARNING: DATA RACE"):
 		c.Viol = "DATA RACE reported by the race detector: " + firstRace(es)
 	case strings.Contains(es, "fatal error: all goroutines are asleep - deadlock!"):
 		c.Viol = "DEADLOCK reported by the Go runtime"
 	case strings.Contains(es, "panic:") || strings.Contains(es, "fatal error:"):
 		c.Viol = "the process crashed: " + tail(es, 600)
+	case c.AnyExit:
 	case err != nil && !c.ExpectFail:
 		c.Viol = fmt.Sprintf("the query failed (exit %d): %s", c.Exit, tail(es, 400))
 	case err == nil && c.ExpectFail:
